@@ -1,7 +1,9 @@
 -------------------------- MODULE Trace_LinksParse --------------------------
 (* Validation of observations recorded from the real jsonargparse (code -> spec), property C15.                  *)
 (* TRACE_FILE holds [obs |-> <<...>>, links |-> <<...>>]; an observation is                                                          *)
-(*   [shape, items, out |-> [ok, c], dumped |-> BOOLEAN, dump, re |-> [ok, c]]                                     *)
+(*   [shape, items, out |-> [ok, c], dumped |-> BOOLEAN, dump, re |-> [ok, c],                                     *)
+(*    tried, saved |-> BOOLEAN, smain, ssub, ssingle, sre |-> [ok, c],   (save() in both modes, every file read)   *)
+(*    ptried, pok |-> BOOLEAN, printed]                                   (--print_config with the same input)      *)
 (* one parse of a real parser built from `shape` with the supplied `items`: whether it succeeded and the abstract  *)
 (* configuration, then (if it succeeded) whether dump() succeeded, the configuration read back from the dump text  *)
 (* (yaml), and the outcome of parsing that text again.  Failing clauses are printed as <<"R", "parse", n, clause>>; *)
@@ -17,8 +19,13 @@ Next == UNCHANGED i
 Say(n, clause) == PrintT(<<"R", "parse", n, clause>>)
 
 IsInt(v) == v.k = "int"
+\* (the recorded list-item deviation, whatever the value: --print_config dumps None values too)
+ListHasP(c) == c.m.k = "list" /\ \E x \in DOMAIN c.m.v : "p" \in DOMAIN c.m.v[x].ia
 \* the sources of the links hold integers (the compute functions are defined on integers only)
-SourcesTyped(c) == IsInt(c.a) /\ IsInt(c.b) /\ IsInt(c.gx) /\ IsInt(c.gy)
+OptTyped(v) == v.k \in {"none", "int", "str", "elist"}
+SourcesTyped(c) == /\ IsInt(c.a) /\ IsInt(c.b) /\ IsInt(c.gx) /\ IsInt(c.gy)
+                   /\ c.o.k = "absent" \/ OptTyped(c.o)
+                   /\ c.s.k \in {"absent", "none"} \/ (c.s.k = "cls" /\ ("limit" \in DOMAIN c.s.ia => OptTyped(c.s.ia["limit"])))
 
 Check(n) ==
   LET ob   == Obs[n]
@@ -28,6 +35,8 @@ Check(n) ==
       adump == AlgDump(sh, alg.c)
       are  == AlgReparse(sh, adump)
       dev  == out.ok /\ ListItemsKeepTarget(sh, out.c)
+      asv  == AlgSaveMulti(sh, alg.c)
+      asre == AlgSaveReparse(sh, asv)
   IN /\ (out.ok => SourcesTyped(out.c)) \/ Say(n, "ref-malformed")
      /\ IF out.ok /\ ~SourcesTyped(out.c) THEN TRUE
         ELSE /\ (out.ok => TargetEq(sh, out.c)) \/ Say(n, "ref-target-not-fn-of-sources")
@@ -38,8 +47,21 @@ Check(n) ==
                 ELSE /\ (dev \/ DumpHidesTarget(sh, ob.dump)) \/ Say(n, "ref-dump-shows-target")
                      /\ (~dev \/ DumpHidesTarget(sh, ob.dump)) \/ Say(n, IF ob.dump = AlgDump(sh, out.c) THEN "ref-dev-list-item-as-alg" ELSE "ref-dev-list-item-other")
                      /\ (ob.re.ok /\ SourcesTyped(ob.re.c) /\ Reconstructed(sh, out.c, ob.re)) \/ Say(n, "ref-not-reconstructed")
+                     \* --print_config with the same input (TLC does not predict the text, only the clause is evaluated)
+                     /\ (~ob.ptried \/ ob.pok) \/ Say(n, "ref-print-config-fails")
+                     /\ (~(ob.ptried /\ ob.pok) \/ ListHasP(ob.printed) \/ DumpHidesTarget(sh, ob.printed)) \/ Say(n, "ref-print-config-shows-target")
+                     \* save(): both modes, every written file
+                     /\ (~ob.tried \/ ob.saved) \/ Say(n, "ref-save-fails")
+                     /\ IF ~(ob.tried /\ ob.saved) THEN TRUE
+                        ELSE /\ (dev \/ SaveHidesTarget(sh, ob.smain, ob.ssub)) \/ Say(n, "ref-save-multifile-shows-target")
+                             /\ (dev \/ DumpHidesTarget(sh, ob.ssingle)) \/ Say(n, "ref-save-singlefile-shows-target")
+                             /\ (~dev \/ (SaveHidesTarget(sh, ob.smain, ob.ssub) /\ DumpHidesTarget(sh, ob.ssingle)) \/ (ob.smain = AlgSaveMulti(sh, out.c).main /\ ob.ssingle = AlgDump(sh, out.c)))
+                                  \/ Say(n, "ref-dev-list-item-other")
+                             /\ (ob.sre.ok /\ SourcesTyped(ob.sre.c) /\ Reconstructed(sh, out.c, ob.sre)) \/ Say(n, "ref-save-not-reconstructed")
              /\ (out.ok = alg.ok /\ (out.ok => out.c = alg.c)) \/ Say(n, "alg-parse")
              /\ (~(out.ok /\ alg.ok /\ ob.dumped /\ out.c = alg.c) \/ (ob.dump = adump /\ ob.re.ok = are.ok /\ (are.ok => ob.re.c = are.c))) \/ Say(n, "alg-dump")
+             /\ (~(out.ok /\ alg.ok /\ ob.tried /\ ob.saved /\ out.c = alg.c)
+                   \/ (ob.smain = asv.main /\ ob.ssub = asv.sub /\ ob.ssingle = adump /\ ob.sre.ok = asre.ok /\ (asre.ok => ob.sre.c = asre.c))) \/ Say(n, "alg-save")
 CheckLink(n) ==
   LET x == Links[n] IN
   /\ (x.accepted = RefLinkAllowed(<<x.l1>>, x.l2)) \/ PrintT(<<"R", "link", n, "ref-chain-rule">>)
